@@ -18,11 +18,11 @@ import (
 )
 
 type c14Desc struct {
-	Seed      int64  `json:"seed"`
-	Container string `json:"container"` // v1 | v2 | v2-pad | v2-indexless
-	MaxBlocks int    `json:"maxblocks"`
-	Random    int    `json:"random,omitempty"` // >0: that many random choice strings instead of all 2^n
-	TrustedCAR bool  `json:"trusted,omitempty"`
+	Seed       int64  `json:"seed"`
+	Container  string `json:"container"` // v1 | v2 | v2-pad | v2-indexless
+	MaxBlocks  int    `json:"maxblocks"`
+	Random     int    `json:"random,omitempty"` // >0: that many random choice strings instead of all 2^n
+	TrustedCAR bool   `json:"trusted,omitempty"`
 }
 
 // posSeeker is a seekable source that records the highest position from which bytes were delivered.
@@ -241,12 +241,12 @@ func genC14(g *mon.G) {
 
 func init() {
 	Register(&mon.Check{
-		ID:    "C14",
-		Level: "exploration",
-		Rule: "cases = seeded valid archives (v1, v2, padded v2, index-less v2; mixed CID widths, 1-3 byte length varints) x ALL 2^n Next/SkipNext choice strings (n = block count ≤ 6 quick / ≤ 10 thorough) plus random strings on 25-block archives, each over 4 source kinds wrapped in position counters; events_observed = individual Next/SkipNext calls judged",
+		ID:          "C14",
+		Level:       "exploration",
+		Rule:        "cases = seeded valid archives (v1, v2, padded v2, index-less v2; mixed CID widths, 1-3 byte length varints) x ALL 2^n Next/SkipNext choice strings (n = block count ≤ 6 quick / ≤ 10 thorough) plus random strings on 25-block archives, each over 4 source kinds wrapped in position counters; events_observed = individual Next/SkipNext calls judged",
 		Assumptions: []string{"reference section table gives the true offsets", "Reader.DataReader() is included as a seekable source although the property's quantifier names only bytes.Reader, plain reader and *os.File"},
-		Gen:   genC14,
-		Run:   runC14,
-		MinCover: map[string]int{"container:v1": 5, "container:v2-pad": 5, "op:SkipNext:plain io.Reader": 100, "op:SkipNext:os.File": 100, "op:SkipNext:bytes.Reader": 100, "op:Next:Reader.DataReader": 100, "v2-consumption-checked": 100},
+		Gen:         genC14,
+		Run:         runC14,
+		MinCover:    map[string]int{"container:v1": 5, "container:v2-pad": 5, "op:SkipNext:plain io.Reader": 100, "op:SkipNext:os.File": 100, "op:SkipNext:bytes.Reader": 100, "op:Next:Reader.DataReader": 100, "v2-consumption-checked": 100},
 	})
 }
